@@ -18,10 +18,10 @@ def build():
 
 
 UNITS = [
-    Verus('c13_linear_perspective', build, min_verified=17,
+    Verus('c13_linear_perspective', build, min_verified=21,
           contract='LinearPerspective::revert(checkpoint), any number of commands / pending writes / facts: Ok <=> index <= #commands; afterwards the commands are exactly those at the checkpoint, '
                    'no pending writes remain, and the fact overlay is exactly the replay of the kept commands\' updates (flat-map model, pointwise) — including the case where a rule wrote facts and '
-                   'then failed without adding a command; representation invariant "overlay = replay(commands) then pending writes" preserved by insert/delete/revert; '
+                   'then failed without adding a command; representation invariant "overlay = replay(commands) then pending writes" preserved by insert/delete/revert/add_command (add_command turns the pending writes into the new command\'s updates without changing the overlay); '
                    'LinearFactPerspective::{clear, apply_updates, insert, delete, query} against the same model (tombstones with a prior, removal without)'),
     Verus('c14_session_overlay', build_session, min_verified=10,
           contract='SessionPerspective::revert truncates the fact log to the checkpoint and rebuilds exactly its replay; lemma: equal logs => equal observable facts'),
@@ -29,12 +29,12 @@ UNITS = [
 TRUSTED = ['vstd BTreeMap model', 'R6 type shims (String/Keys/Bytes opaque ordered values; struct fields not touched by these functions dropped)',
            'facts visible through the prior are an arbitrary fixed function (R17: the dispatch to the prior index/perspective is external)',
            'checkpoints are taken when no writes are pending (as Transaction::add_single and Session::action do)']
-ASSUMPTIONS = ['LinearPerspective::add_command (moves the pending writes into the new command) is not under contract',
+ASSUMPTIONS = ['in add_command the head check (command.parent() vs head_address()) is abstract',
                'prefix queries on the perspective are not covered']
 EXPLANATION = 'Unbounded per-operation contracts over a pointwise flat-map model, verified by Verus on the extracted method bodies.'
 MANIFEST = {
     'text': 'Proof (unbounded): reverting a graph perspective or a session to a checkpoint leaves exactly the commands and (exact-query) facts of the checkpoint — the overlay equals the replay of the kept '
             'commands / fact log — for any interleaving of writes and deletes before the revert, including writes of a rule that then failed. Verified on the extracted method bodies over vstd\'s BTreeMap model.',
-    'note': 'Extraction rewrites R8/R12/R14-R17 and type shims are listed in the evidence. add_command and prefix queries not covered.',
+    'note': 'Extraction rewrites R8/R12/R14-R17 and type shims are listed in the evidence. Prefix queries: C12 / C14 units.',
     'technique': 'Verus on extracted LinearPerspective / SessionPerspective methods over vstd BTreeMap specs',
 }
